@@ -1,31 +1,36 @@
 #!/usr/bin/env python3
-"""Markdown summary of the mechanical-mutant run (seeded/_automut/{INDEX,results}.tsv; DESIGN section 8)."""
-import os,collections
+"""Markdown summary of the mechanical-mutant runs (seeded/_automut*/{INDEX,results,survivors}.tsv; DESIGN section 8)."""
+import os,collections,glob
 V=os.path.dirname(os.path.dirname(os.path.abspath(__file__)))
-D=V+'/seeded/_automut'
-idx={}
-for l in open(D+'/INDEX.tsv'):
-    p=l.rstrip('\n').split('\t')
-    if len(p)>=3: idx[p[0]]=(p[1],p[2])
-res={}
-for l in open(D+'/results.tsv'):
-    p=l.rstrip('\n').split('\t')
-    if p and p[0] in idx: res[p[0]]=p[1:]
-verd={}
-vf=D+'/survivors.tsv'   # hand verdicts: name \t equivalent|unspecified|gap \t reason
-if os.path.exists(vf):
-    for l in open(vf):
+SETS=[('seeded/_automut','first operator set (arithmetic / comparison / logic swaps, boundary and constant changes, min<->max, getter swaps, dropped abs, deleted state update)'),
+      ('seeded/_automut2','second operator set (period <-> count, period +- 1, range bounds, negated / constant conditions, swapped operands of a difference, shifted ring index, reversed or shortened iteration, wrong typical-price member, sign tests, dropped sqrt)')]
+for d,desc in SETS:
+    D=os.path.join(V,d)
+    if not os.path.exists(D+'/INDEX.tsv'): continue
+    idx={}
+    for l in open(D+'/INDEX.tsv'):
         p=l.rstrip('\n').split('\t')
-        if len(p)>=3: verd[p[0]]=(p[1],p[2])
-c=collections.Counter(v[0] for v in res.values())
-by=collections.Counter(v[1] for v in res.values() if v[0]=='CAUGHT')
-print(f"{len(idx)} single-site mutants; {c['NO-COMPILE-OR-HANG']} do not compile (or hang the suite); {c['KILLED-BY-SUITE']} are killed by the crate's own 136 tests; "
-      f"{c['CAUGHT']+c['SURVIVED']} survive the suite. Of these, {c['CAUGHT']} are flagged by a quick check "
-      f"(first check to flag, in the fixed order: {', '.join(f'{k} {v}' for k,v in sorted(by.items()))}) and {c['SURVIVED']} pass all 18 quick checks.\n")
-print("| surviving mutant | site | change | verdict after reading it |")
-print("|---|---|---|---|")
-for k in sorted(res):
-    if res[k][0]!='SURVIVED': continue
-    site,chg=idx[k]
-    v=verd.get(k,('?',''))
-    print(f"| {k} | {site.replace('src/indicators/','')} | {chg} | {v[0]}: {v[1]} |")
+        if len(p)>=3: idx[p[0]]=(p[1],p[2])
+    res={}
+    for l in open(D+'/results.tsv'):
+        p=l.rstrip('\n').split('\t')
+        if p and p[0] in idx: res[p[0]]=p[1:]
+    verd={}
+    vf=D+'/survivors.tsv'   # hand verdicts: name \t equivalent|unspecified|gap \t reason
+    if os.path.exists(vf):
+        for l in open(vf):
+            p=l.rstrip('\n').split('\t')
+            if len(p)>=3: verd[p[0]]=(p[1],p[2])
+    c=collections.Counter(v[0] for v in res.values())
+    by=collections.Counter(v[1] for v in res.values() if v[0]=='CAUGHT')
+    print(f"**{desc}.** {len(idx)} single-site mutants ({len(res)} run); {c['NO-COMPILE-OR-HANG']} do not compile (or hang the suite); {c['KILLED-BY-SUITE']} are killed by the crate's own 136 tests; "
+          f"{c['CAUGHT']+c['SURVIVED']} survive the suite. Of these, {c['CAUGHT']} are flagged by a quick check "
+          f"(first check to flag, in the fixed order: {', '.join(f'{k} {v}' for k,v in sorted(by.items()))}) and {c['SURVIVED']} pass all 18 quick checks.\n")
+    print("| surviving mutant | site | change | verdict after reading it |")
+    print("|---|---|---|---|")
+    for k in sorted(res):
+        if res[k][0]!='SURVIVED': continue
+        site,chg=idx[k]
+        v=verd.get(k,('?',''))
+        print(f"| {k} | {site.replace('src/indicators/','')} | {chg} | {v[0]}: {v[1]} |")
+    print()
